@@ -26,7 +26,8 @@ REAL_COMPONENTS = ["Pipeline / orchestrator incl. all trace branches", "JsonlTra
 STUB_COMPONENTS = ["leaf processors (svsim.lib)", "RecordingExecutor", "SimClock/SimUUID (advance between runs)"]
 ASSUMPTIONS = ["volatile fields are exactly: run_id (header and identity.run_id), timestamp, timing.started_at, "
                "timing.finished_at, timing.wall_ms, timing.cpu_ms, seq - nothing else is removed before comparing"]
-REQUIRED_PROBES = ["reused_pipeline_second_traced_run", "reused_pipeline_with_sweep", "failing_subject", "history_contains_other_config"]
+REQUIRED_PROBES = ["reused_pipeline_second_traced_run", "reused_pipeline_with_sweep", "failing_subject", "history_contains_other_config",
+                   "result_object_fed_back"]
 CONFIG = {
     "quick": {"runs": 600, "budget_s": 150, "timeout_s": 120},
     "thorough": {"runs": 20000, "budget_s": 1500, "timeout_s": 120},
@@ -58,12 +59,16 @@ def generate(rng: random.Random, tier: str, seed: int) -> dict:
         ops.append(["fresh", "A", d])
         ops.append(["reuse", "A", d])
         ops.append(["reuse", "A", d])
+    if subject.get("init_data") is not None and fail is None and a["truth"][-1]["out"] == "float":
+        # feed a previous result object back in after resetting its value in place through the .data setter
+        for d in details:
+            ops.append(["reuse_feedback", "A", d])
     for _ in range(rng.randint(0, 3)):
         ops.append([rng.choice(["fresh", "untraced"]), "B", rng.choice(harness.DETAILS)])
     if rng.random() < 0.5:
         ops.append(["untraced", "A", None])
     rng.shuffle(ops)
-    return {"A": subject, "B": dict(b, faults=[]), "ops": ops, "fail": fail, "A_truth": a.get("truth")}
+    return {"A": subject, "B": dict(b, faults=[]), "ops": ops, "fail": fail, "A_truth": a.get("truth"), "remote_exec": rng.random() < 0.25}
 
 
 def normalize(recs: list[dict]) -> list[dict]:
@@ -100,7 +105,9 @@ def _first_diff(a, b, path="") -> str:
             if d:
                 return d
         return ""
-    return "" if a == b else f"{path}: {a!r} vs {b!r}"
+    if a == b or (isinstance(a, float) and isinstance(b, float) and a != a and b != b):
+        return ""
+    return f"{path}: {a!r} vs {b!r}"
 
 
 def _field_of(diff: str) -> str:
@@ -125,8 +132,10 @@ def execute(sc: dict, seed: int) -> dict:
     stats: dict = {}
     viols: list[dict] = []
     w = SimWorld(seed, lane="c10")
+    w.remote_exec = bool(sc.get("remote_exec"))
     try:
         reused = {}
+        last_result: dict = {}
         a_untraced = []
         a_traced: dict[str, list] = {}
         n_reuse = 0
@@ -136,6 +145,19 @@ def execute(sc: dict, seed: int) -> dict:
                 rr = harness.run_scenario(s, w, trace_mode="none", name=f"o{i}")
             elif how == "fresh":
                 rr = harness.run_scenario(s, w, trace_mode=("file" if i % 2 else "dir"), detail=detail, name=f"o{i}")
+            elif how == "reuse_feedback":
+                from semantiva import Payload
+                from semantiva.context_processors import ContextType
+                if which not in reused:
+                    reused[which] = harness.make_pipeline(s["nodes"])
+                prev = last_result.get(which)
+                fed = None
+                if prev is not None and hasattr(prev.data, "data") and isinstance(prev.data.data, float):
+                    prev.data.data = float(s["init_data"])          # same object, value reset in place
+                    fed = Payload(prev.data, ContextType(copy.deepcopy(s["context"])))
+                    stats["probe.result_object_fed_back"] = stats.get("probe.result_object_fed_back", 0) + 1
+                rr = harness.run_scenario(s, w, trace_mode="file", detail=detail, pipeline=reused[which], name=f"o{i}", payload=fed)
+                how = "reuse"
             else:
                 if which not in reused:
                     reused[which] = harness.make_pipeline(s["nodes"])
@@ -146,6 +168,8 @@ def execute(sc: dict, seed: int) -> dict:
                         stats["probe.reused_pipeline_with_sweep"] = stats.get("probe.reused_pipeline_with_sweep", 0) + 1
                 rr = harness.run_scenario(s, w, trace_mode="file", detail=detail, pipeline=reused[which], name=f"o{i}")
             stats["subruns"] = stats.get("subruns", 0) + 1
+            if how == "reuse" and rr["outcome"]["ok"]:
+                last_result[which] = rr["outcome"]["payload"]
             if which == "B":
                 stats["probe.history_contains_other_config"] = stats.get("probe.history_contains_other_config", 0) + 1
                 continue
@@ -161,11 +185,11 @@ def execute(sc: dict, seed: int) -> dict:
         # (a) "Attaching a trace driver, at any detail level, never changes what a run returns or raises."
         ref_i, ref = a_untraced[0]
         for i, ok in a_untraced[1:]:
-            if ok != ref:
+            if harness.canon(ok) != harness.canon(ref):
                 viols.append(oracles.V("outcome", "untraced_runs_differ", f"op {i} vs op {ref_i}: {_first_diff(ref, ok)}"))
         for detail, runs in a_traced.items():
             for i, how, ok, _n in runs:
-                if ok != ref:
+                if harness.canon(ok) != harness.canon(ref):
                     d = _first_diff(ref, ok)
                     viols.append(oracles.V("outcome", f"traced_ne_untraced:{_field_of(d)}", f"op {i} ({how}, detail={detail}) vs untraced op {ref_i}: {d}"))
                     break
